@@ -250,14 +250,24 @@ pub fn sweep_n<F>(n: usize, f: F) -> Local
 where
     F: Fn(usize, &mut Local) + Sync,
 {
+    sweep_collect::<(), _>(n, |i, l, _| f(i, l)).0
+}
+
+/// As `sweep_n`, but every item may also emit values (successor states, records) which are returned
+/// in index order
+pub fn sweep_collect<T: Send, F>(n: usize, f: F) -> (Local, Vec<T>)
+where
+    F: Fn(usize, &mut Local, &mut Vec<T>) + Sync,
+{
     let threads = n_threads();
     let mut merged = Local::new();
     let recheck = n.min(16);
     for i in 0..recheck {
         let mut a = Local::new();
         let mut b = Local::new();
-        let _ = guarded(|| f(i, &mut a));
-        let _ = guarded(|| f(i, &mut b));
+        let mut sink = Vec::new();
+        let _ = guarded(|| f(i, &mut a, &mut sink));
+        let _ = guarded(|| f(i, &mut b, &mut sink));
         if a.digest() != b.digest() {
             merged
                 .machinery
@@ -265,12 +275,12 @@ where
         }
     }
     if n == 0 {
-        return merged;
+        return (merged, Vec::new());
     }
     let chunk = (n / (threads * 32)).max(1);
     let n_chunks = n.div_ceil(chunk);
     let next = AtomicUsize::new(0);
-    let results: Mutex<Vec<Option<Local>>> = Mutex::new((0..n_chunks).map(|_| None).collect());
+    let results: Mutex<Vec<Option<(Local, Vec<T>)>>> = Mutex::new((0..n_chunks).map(|_| None).collect());
     std::thread::scope(|s| {
         for _ in 0..threads.min(n_chunks) {
             s.spawn(|| loop {
@@ -279,20 +289,70 @@ where
                     break;
                 }
                 let mut l = Local::new();
+                let mut out = Vec::new();
                 for i in c * chunk..((c + 1) * chunk).min(n) {
-                    if let Err(msg) = guarded(|| f(i, &mut l)) {
+                    if let Err(msg) = guarded(|| f(i, &mut l, &mut out)) {
                         l.machinery
                             .push(format!("harness panic on item {}: {}", i, msg));
                     }
                 }
-                results.lock().unwrap()[c] = Some(l);
+                results.lock().unwrap()[c] = Some((l, out));
             });
         }
     });
-    for l in results.into_inner().unwrap().into_iter().flatten() {
+    let mut all = Vec::new();
+    for (l, out) in results.into_inner().unwrap().into_iter().flatten() {
         merged.merge(l);
+        all.extend(out);
     }
-    merged
+    (merged, all)
+}
+
+/// Level-synchronous parallel explicit-state search. Every state of the frontier is expanded by
+/// `succ` (which calls the real code, judges the transitions and emits the successors); successors
+/// are de-duplicated by their canonical `key`. Returns (accumulator, states, transitions, depth
+/// reached, capped).
+pub fn bfs_par<S: Send + Sync, K: Ord, FK, FS>(
+    init: Vec<S>,
+    key: FK,
+    succ: FS,
+    max_depth: usize,
+    max_states: usize,
+) -> (Local, u64, u64, usize, bool)
+where
+    FK: Fn(&S) -> K,
+    FS: Fn(&S, usize, &mut Local, &mut Vec<S>) + Sync,
+{
+    let mut seen: BTreeSet<K> = BTreeSet::new();
+    let mut frontier: Vec<S> = Vec::new();
+    for s in init {
+        if seen.insert(key(&s)) {
+            frontier.push(s);
+        }
+    }
+    let mut acc = Local::new();
+    let mut transitions = 0u64;
+    let mut depth = 0usize;
+    let mut capped = false;
+    while !frontier.is_empty() && depth < max_depth {
+        let fr = &frontier;
+        let (l, out) = sweep_collect::<S, _>(fr.len(), |i, l, out| succ(&fr[i], depth, l, out));
+        acc.merge(l);
+        transitions += out.len() as u64;
+        let mut next = Vec::new();
+        for n in out {
+            if seen.len() >= max_states {
+                capped = true;
+                break;
+            }
+            if seen.insert(key(&n)) {
+                next.push(n);
+            }
+        }
+        frontier = next;
+        depth += 1;
+    }
+    (acc, seen.len() as u64, transitions, depth, capped)
 }
 
 pub fn sweep<T: Sync, F>(items: &[T], f: F) -> Local
